@@ -36,6 +36,7 @@ PROP_MODULES = {
     "C06": ["c06"],
     "C05": ["c05"],
     "C09": ["c03", "c09"],
+    "C02": ["c01", "c03", "c05", "c02"],
 }
 
 
